@@ -108,7 +108,7 @@ func runLegacyCase(t *Tracer, m *Meta, r *rand.Rand, c *TrieCase, layout string,
 			if d, err := Decode(sl); err == nil {
 				t.Emit(TableEv(d))
 				if len(c.Keys) <= 700 {
-					t.Emit(ProtoEv(sl)) // the re-marshalled conversion, field by field (Level B)
+					t.Emit(ProtoEv(sl, nil)) // the re-marshalled conversion, field by field (Level B)
 				}
 				m.class(shapeClass(d))
 			} else {
